@@ -435,6 +435,11 @@ def run(ctx):
     # what a reopen yields.
     items_in_order(ctx, "R-C04.8")
 
+    # ---- R-C04.14 replay routes every record by a lookup made for THAT record: the tree a replayed item / clear is applied
+    #      to is `keyspaces.get(resolve_id(<this record's keyspace id>))`, looked up in the same round of the loop —
+    #      not a handle carried over from an earlier record
+    replay_routing(ctx, "R-C04.14")
+
     # ---- cross-cutting disciplines (rules/discipline.py)
     from .. import discipline as D
     # a recovery step that fails must fail the open
@@ -486,3 +491,63 @@ def items_in_order(ctx, rule):
                "%s reorders or filters the items of a batch (%s): all items of a batch share one seqno, so for a key written twice in the batch the copy applied LAST wins — after a reopen the key has the earlier value, or a value the batch had already removed" % (
                    fid, bad[0][2].rsplit("::", 2)[-1] if "::" in bad[0][2] else bad[0][2]), bad[0][0].loc(bad[0][1]) if bad else "")
     ctx.floor(rule, "functions that carry batch items between journal and memtable", n, 5)
+
+
+def _spine(t):
+    """the chain of terms from t down through field / downcast projections and Try plumbing to the first real call"""
+    out = []
+    while True:
+        out.append(t)
+        if t.k in ("field", "downcast"):
+            t = t.a[0]
+        elif t.k == "index":
+            t = t.a
+        elif t.k == "call" and (A.is_transparent(t.a[0]) or t.a[0].endswith(("::branch", "::deref", "::as_ref", "::borrow"))) and t.a[1]:
+            t = t.a[1][0]
+        else:
+            return out
+
+
+def replay_routing(ctx, rule):
+    F = ctx.F
+    n = 0
+    for fid in ("db::Database::recover", "recovery::recover_sealed_memtables"):
+        fn = ctx.fn(fid, rule)
+        if not fn:
+            continue
+        og = ctx.og(fn)
+        for b in R.apply_blocks(fn):
+            t = fn.term(b)
+            leaf = A.cname(t).rsplit("::", 1)[-1]
+            if leaf not in ("insert", "remove", "remove_weak", "clear") or not A.in_cycle(fn, b):
+                continue
+            n += 1
+            recv = og.of_operand(t["args"][0])
+            sp = _spine(recv)
+            root = sp[-1]
+            ok = False
+            detail = ""
+            if any(x.k == "phi" for x in sp):
+                detail = "the handle the record is applied to is carried between rounds of the replay loop (%s): a record whose own lookup fails or is skipped lands in the keyspace of an earlier record" % A.tstr(recv)[:120]
+            elif not (root.k == "call" and root.a[0].endswith("::get") and "HashMap" in root.a[0]):
+                detail = "the receiver is not a lookup in the keyspaces map: %s" % A.tstr(root)[:120]
+            else:
+                key = _spine(root.a[1][1]) if len(root.a[1]) > 1 else []
+                kroot = key[-1] if key else None
+                if any(x.k == "phi" for x in key) or kroot is None or not (kroot.k == "call" and kroot.a[0].endswith("MetaKeyspace::resolve_id")):
+                    detail = "the name looked up is not resolve_id(<record's id>) of this round: %s" % (A.tstr(kroot)[:120] if kroot is not None else "?")
+                else:
+                    idt = kroot.a[1][1]
+                    ids = _spine(idt)
+                    from_next = any(x.k == "call" and x.a[0].endswith("::next") and "Iterator" in x.a[0] for x in A.walk(idt))
+                    no_phi = not any(x.k == "phi" for x in ids)
+                    is_id = (leaf == "clear") or any(x.k == "field" and x.a[1] == "keyspace_id" for x in ids)
+                    # both lookups happen in the round that applies: their call blocks dominate the apply and lie in its loop
+                    lk = [bb for bb, tt in fn.calls() if A.cname(tt).endswith("MetaKeyspace::resolve_id") and A.dominates(fn, bb, b) and A.in_cycle(fn, bb)]
+                    gk = [bb for bb, tt in fn.calls() if A.cname(tt).endswith("::get") and "HashMap" in A.cname(tt) and A.dominates(fn, bb, b) and A.in_cycle(fn, bb)]
+                    ok = from_next and no_phi and is_id and bool(lk) and bool(gk)
+                    detail = "applied to keyspaces.get(resolve_id(<this record>.keyspace_id)), both looked up in the same round" if ok else \
+                        "id operand %s [element of the loop: %s, not carried: %s, is the record's id: %s, lookups dominate the apply: %s/%s]" % (
+                            A.tstr(idt)[:80], from_next, no_phi, is_id, bool(lk), bool(gk))
+            ctx.ob(rule, fn, "%s-routed-by-its-own-keyspace-id" % leaf, ok, detail, fn.loc(b))
+    ctx.floor(rule, "replayed applies examined", n, 8)
